@@ -251,9 +251,11 @@ type faultCtl struct {
 	fired    bool
 	hitKind  string // kind of the write that was hit
 	prevKind string // kind of the last modelled write before the hit
+	readAt   int    // measurement only: the transactional GetMany with this index returns an error; -1 none
+	readN    int
 }
 
-func (c *faultCtl) clearFault() { c.mode, c.at, c.atModel, c.kmAt = "", -1, -1, -1 }
+func (c *faultCtl) clearFault() { c.mode, c.at, c.atModel, c.kmAt, c.readAt = "", -1, -1, -1, -1 }
 
 // writes of the slashing-protection records are not part of the modelled state (they depend on the wall clock)
 var unmodelled = map[string]bool{"sp": true}
@@ -400,6 +402,19 @@ func (t *faultTxn) Delete(prefix, key []byte) error {
 	}
 	return t.Txn.Delete(prefix, key)
 }
+func (t *faultTxn) GetMany(prefix []byte, keys [][]byte, iterator func(basedb.Obj) error) error {
+	if t.c.armed {
+		idx := t.c.readN
+		t.c.readN++
+		if t.c.readAt == idx && !t.c.fired {
+			t.c.fired = true
+			t.c.hitKind = "read"
+			return errInjected{}
+		}
+	}
+	return t.Txn.GetMany(prefix, keys, iterator)
+}
+
 func (t *faultTxn) Commit() error {
 	if err := t.c.write("C"); err != nil {
 		return err
@@ -535,7 +550,7 @@ type proc struct {
 
 // startProc does what cli/operator/node.go does at start-up, on the given (surviving) database.
 func startProc(raw basedb.Database) *proc {
-	p := &proc{raw: raw, ctl: &faultCtl{kmAt: -1, at: -1, atModel: -1}, exec: &recExec{}, met: &recMetrics{}}
+	p := &proc{raw: raw, ctl: &faultCtl{kmAt: -1, at: -1, atModel: -1, readAt: -1}, exec: &recExec{}, met: &recMetrics{}}
 	p.db = &faultDB{Database: raw, c: p.ctl}
 	ns, err := operatorstorage.NewNodeStorage(logger, p.db)
 	must(err)
@@ -706,7 +721,7 @@ func (p *proc) processBlock(num uint64, evs []*event) (res blockResult) {
 		logs[i] = buildLog(e, num, uint(i))
 	}
 	p.exec.tasks, p.met.out = nil, nil
-	p.ctl.n, p.ctl.kmN, p.ctl.trace, p.ctl.modelled, p.ctl.fired, p.ctl.hitKind, p.ctl.prevKind = 0, 0, nil, 0, false, "", ""
+	p.ctl.readN, p.ctl.n, p.ctl.kmN, p.ctl.trace, p.ctl.modelled, p.ctl.fired, p.ctl.hitKind, p.ctl.prevKind = 0, 0, 0, nil, 0, false, "", ""
 	p.ctl.armed = true
 	ch := make(chan executionclient.BlockLogs, 1)
 	ch <- executionclient.BlockLogs{BlockNumber: num, Logs: logs}
